@@ -5,6 +5,7 @@ import (
 	"context"
 	"errors"
 	"fmt"
+	"io"
 	"math/rand"
 	"net/http"
 	"os"
@@ -76,7 +77,7 @@ func randCase(r *rand.Rand, s string) string {
 }
 
 var hostileStatuses = []string{"", "0", "00", "000", "+0", "-0", "-1", "1", "16", "17", "99", "4294967295", "4294967296", "8589934592", "18446744073709551616", "x", "1 ", " 1", "0x1", "1.0", "1e1", "٣", "2,3"}
-var hostileMessages = []string{"", "plain", "%", "%4", "%zz", "%E4%B8", "%00", "a%20b%", strings.Repeat("%41", 200), "caf\xc3\xa9", "\x00\x01"}
+var hostileMessages = []string{"", "plain", "%", "%4", "%zz", "%E4%B8", "%00", "a%20b%", "caf%C3%A9 100%4", "%41%4", "%41%", "%41%%", "x%41y%zz%4", strings.Repeat("%41", 200), "caf\xc3\xa9", "\x00\x01"}
 
 func hostileDetails(r *rand.Rand) string {
 	switch r.Intn(8) {
@@ -546,8 +547,17 @@ func c06(run *ev.Run) int {
 }
 
 func c06Case(run *ev.Run, seen *statusSeen, protocol, codec string, kind svc.Kind, cfg, key string, h *hostile) {
+	// sometimes the transport fails after the last byte (broken chunked
+	// framing, dropped connection): whatever surfaces must still be coded
+	var finalErr error
+	switch len(h.body) % 7 {
+	case 3:
+		finalErr = errors.New("invalid byte in chunk length")
+	case 5:
+		finalErr = io.ErrUnexpectedEOF
+	}
 	cn := &wire.Canned{Background: true, Respond: func(req *http.Request, _ []byte) (*http.Response, error) {
-		return wire.NewResponse(req, h.status, h.header, &wire.ScriptedBody{Data: h.body}, h.trailer), nil
+		return wire.NewResponse(req, h.status, h.header, &wire.ScriptedBody{Data: h.body, FinalErr: finalErr}, h.trailer), nil
 	}}
 	opts := append(svc.ProtoOpts(protocol, codec), connect.WithReadMaxBytes(1<<20))
 	cs := svc.NewClientSet(cn, "http://verif.local", opts...)
@@ -592,7 +602,7 @@ func c06Case(run *ev.Run, seen *statusSeen, protocol, codec string, kind svc.Kin
 	if cl.Err != nil {
 		code, _ := codeOf(cl.Err)
 		outcome = "error:" + code.String()
-		if h.status != 200 && h.noValidError {
+		if h.status != 200 && h.noValidError && finalErr == nil {
 			family := "grpc"
 			if protocol == "connect" {
 				family = "connect"
@@ -606,7 +616,7 @@ func c06Case(run *ev.Run, seen *statusSeen, protocol, codec string, kind svc.Kin
 			}
 		}
 	}
-	if h.expectMeta != nil {
+	if h.expectMeta != nil && finalErr == nil {
 		for k, want := range h.expectMeta {
 			var got []string
 			var ce *connect.Error
